@@ -103,6 +103,15 @@ Theorem C13_samples_site : forall adj nodes perm ps,
     /\ StronglySorted Z.le (map snd (series os)).
 Proof. exact do_site_samples. Qed.
 
+(* the GCC series of the results never decreases (for every input, no side conditions) *)
+Theorem C13_monotone : forall nodes es0 perm ps s' os n, do_bond nodes es0 perm ps = (s', os, n) ->
+  StronglySorted Z.le (map snd (series os)).
+Proof. exact do_bond_monotone. Qed.
+
+Theorem C13_monotone_site : forall nodes adj perm ps s' os n, do_site nodes adj perm ps = (s', os, n) ->
+  StronglySorted Z.le (map snd (series os)).
+Proof. exact do_site_monotone. Qed.
+
 (* the working network seen by a sample is exactly the sub-network of the elements occupied so far *)
 Theorem C13_working_network : forall nodes es p o, bond_sample_ok nodes es p o ->
   exists k, least_reach k (length es) p /\ o_wnodes o = nodes /\ eeq (o_wedges o) (firstn k es).
